@@ -242,7 +242,7 @@ package h2
 
 //@ func (*headerContinuation).complete
 //@   serves C08
-//@   requires h != nil && h.priority == pendPrio
+//@   requires h != nil && h.priority == pendPrio && h.endStream == pendEnd
 //@   modifies pcN, pcKind, pcSelf, pcEnd, pcHeaders, pcPrio
 //@   ensures[continued-headers-keep-end-stream] pcN == old(pcN) + 1 && pcSelf == s && pcHeaders == headers && pcKind == 2 && pcEnd == pendEnd && pcPrio == pendPrio
 
